@@ -44,6 +44,19 @@ theorem loop3_oppFace {k : Kernel} {hes : List Nat} (h : Loop3 k hes) : Loop3 k 
     exact ⟨h2.symm, h1.symm, h3.symm⟩
   · exact absurd h id
 
+theorem loop3_toV_mem {k : Kernel} {l : List Nat} (h : Loop3 k l) {x : Nat} (hx : x ∈ l) : k.toV x ∈ l.map k.fromV := by
+  unfold Loop3 at h
+  split at h
+  · rename_i y0 y1 y2
+    obtain ⟨l1, l2, l3⟩ := h
+    simp only [List.mem_cons, List.not_mem_nil, or_false] at hx
+    simp only [List.map_cons, List.map_nil, List.mem_cons, List.not_mem_nil, or_false]
+    rcases hx with rfl | rfl | rfl
+    · exact Or.inr (Or.inl l1)
+    · exact Or.inr (Or.inr l2)
+    · exact Or.inl l3
+  · exact absurd h id
+
 theorem faceAt_mem_or_nil (k : Kernel) (f : Nat) : k.faceAt f ∈ k.faces ∨ k.faceAt f = [] := by
   unfold faceAt
   by_cases h : f < k.faces.length
@@ -199,7 +212,12 @@ theorem tetAddHalfedge_none {k : Kernel} (hb : k.vBU = true) {a b : Nat} (hn : k
     simp only [Bool.false_eq_true, if_false, hb, if_true]
     unfold findHalfedge qVOH at hn
     simp only [hb, if_true] at hn
-    rw [hn]; rfl
+    have hflt : (k.outOf a).filter (fun he => k.toV he == b) = [] := by
+      rw [List.filter_eq_nil_iff]
+      intro x hx
+      have := List.find?_eq_none.mp hn x hx
+      simpa using this
+    rw [hflt]; rfl
   unfold tetAddHalfedge
   rw [hn]
   simp only
